@@ -1,49 +1,7 @@
-import IxpeVerif.Gen.CacheSites
-/-!
-# Audit of memoisation and carried state (shared by the properties that quantify over histories of calls: C03 C05 C06 C07 C10 C11 C12 C16 C19)
-
-`Gen.cacheSites` is regenerated on every run by `translator/cachesites.py`: `lru_cache`-style decorators, lookup-or-compute on a container
-that outlives the call (with the text of the key and of the expressions the key is assigned from), lazily computed attributes, mutable default
-arguments written in the body, options written inside a loop over items, module-level containers mutated at run time.  `Cache.transparent_iff`
-(Props/C11.lean) says when such a site is invisible: exactly when the key determines the result.  The list below is what exists on the audited
-tree, each with the reason it cannot make a result depend on the history; the theorem is decided by the kernel on the generated table. Core only.
--/
+import IxpeVerif.Props.StateAuditDefs
+/-! # Audit of memoisation and carried state over the whole package (C11); definitions and reasons in `StateAuditDefs.lean`. Core only. -/
 
 namespace StateAudit
-
-def cs (s : String) : List Nat := s.toList.map Char.toNat
-
-/-- the sites that exist on the audited tree, each with the reason it cannot make an output depend on the history:
-* `irf.__CACHE` is keyed by the resolved file path, which is all the loader reads (`Cache.keyed_by_input_transparent`; the path determines
-  name, DU, type and flags by `C12.config_injective`);
-* `irfgen.xcom.__CACHE` (cross-section tables by identifier) and the `irfgen`, `spm`, `clustering`, `xpsimfmt` loops fill arrays handed in by
-  the caller for that purpose: response generation and level-1 tools, outside the seeded applications' outputs;
-* `kwargs['outfile']` in the per-DU loops of `xpobssim`, `xpcalib`, `xpphotonlist` is overwritten at the top of every iteration before use;
-* `_get_ephemeris` loops over option *names* of one call, not over items;
-* `xBinnedFileBase.__setattr__` mirrors an attribute into the object's own data dictionary (no result is reused);
-* `STORE_OBJECT_POOL` keeps matplotlib widgets alive (plotting);
-* the fit-model classes of `core/modeling.py` rename their own class (`__name__`) for display: fitting/plotting layer, no data product;
-* `xBinTableHDUMATRIX.__init__` writes the run-time MATRIX format into the class-level `DATA_SPECS` (response generation; the last writer wins, and
-  every instance rewrites it before use). -/
-def auditedSites : List (List Nat × List Nat × List Nat × List Nat × List Nat) := [
-  (cs "ixpeobssim/bin/xpcalib.py", cs "xpcalib", cs "loop-carried", cs "kwargs", cs "'outfile'"),
-  (cs "ixpeobssim/bin/xpobssim.py", cs "xpobssim", cs "loop-carried", cs "kwargs", cs "'outfile'"),
-  (cs "ixpeobssim/bin/xpphase.py", cs "_get_ephemeris", cs "loop-carried", cs "kwargs", cs "key"),
-  (cs "ixpeobssim/bin/xpphotonlist.py", cs "xpphotonlist", cs "loop-carried", cs "kwargs", cs "'outfile'"),
-  (cs "ixpeobssim/bin/xpsimfmt.py", cs "_strip_hdu_list_base", cs "loop-carried", cs "hdu_list", cs "ext_name"),
-  (cs "ixpeobssim/binning/base.py", cs "__setattr__", cs "dict", cs "_data_dict", cs "name"),
-  (cs "ixpeobssim/core/modeling.py", cs "_model.__init__", cs "class-attr-assign", cs "__name__", cs "self.__class__"),
-  (cs "ixpeobssim/core/modeling.py", cs "xFitModelBase.__add__", cs "class-attr-assign", cs "__name__", cs "self.__class__"),
-  (cs "ixpeobssim/core/modeling.py", cs "xFitModelBase.__init__", cs "class-attr-assign", cs "__name__", cs "self.__class__"),
-  (cs "ixpeobssim/evt/clustering.py", cs "run", cs "loop-carried", cs "output_ids", cs "cluster_mask"),
-  (cs "ixpeobssim/irf/__init__.py", cs "_load_irf_base", cs "dict", cs "__CACHE",
-   cs "file_path := irf_file_path(irf_name, du_id, irf_type, caldb_path, True, simple_weighting, gray_filter)"),
-  (cs "ixpeobssim/irf/spm.py", cs "_rebin_array", cs "loop-carried", cs "a", cs "sel"),
-  (cs "ixpeobssim/irfgen/ixpesim.py", cs "_adjust_to_calibration_data", cs "loop-carried", cs "modf", cs "(i, :)"),
-  (cs "ixpeobssim/irfgen/fmt.py", cs "xBinTableHDUMATRIX.__init__", cs "class-state", cs "DATA_SPECS", cs "item store"),
-  (cs "ixpeobssim/irfgen/xcom.py", cs "load_xsection_data", cs "dict", cs "__CACHE", cs "identifier"),
-  (cs "ixpeobssim/utils/matplotlib_.py", cs "add_slider", cs "global-state", cs "STORE_OBJECT_POOL", cs "append"),
-  (cs "ixpeobssim/utils/matplotlib_.py", cs "draggable_colorbar", cs "global-state", cs "STORE_OBJECT_POOL", cs "append")]
 
 /-- **every memoisation / carried-state site of the current tree has been audited** (kernel-decided on the generated table): a new cache, a
 changed cache key, an option written inside a loop over items, or a new module-level container filled at run time makes this fail until
